@@ -188,6 +188,10 @@ func (ex *Exec) Discharge(timeout time.Duration, keepScripts string) []*OblResul
 		r.Size = ts.Size(asserts...)
 		script := "(set-option :produce-models true)\n" + ts.SMTScript(asserts, gm, "")
 		r.Script = script
+		if d := os.Getenv("GOVC_DUMP"); d != "" && strings.Contains(o.Name, d) {
+			os.MkdirAll("/tmp/govc-dump", 0o755)
+			os.WriteFile(filepath.Join("/tmp/govc-dump", sanitize(o.Name)+".smt2"), []byte(script), 0o644)
+		}
 		jobs = append(jobs, job{i, script})
 	}
 	var wg sync.WaitGroup
